@@ -71,7 +71,9 @@ pub struct CanonicalFormatter {
 /// ```
 #[derive(Debug, Default)]
 struct Object {
-    obj: BTreeMap<Vec<u8>, Vec<u8>>,
+    /// Members, ordered by their (unescaped) key; each entry holds the key as it is written
+    /// (quoted and escaped) and the value.
+    obj: BTreeMap<Vec<u8>, (Vec<u8>, Vec<u8>)>,
     next_key: Vec<u8>,
     next_value: Vec<u8>,
     key_done: bool,
@@ -111,6 +113,27 @@ impl CanonicalFormatter {
             )
         })
     }
+}
+
+/// Recovers the key that object members are ordered by from the form in which it is written:
+/// the surrounding quotation marks are removed and the two escapes this formatter emits (`\"`
+/// and `\\`) are undone. Ordering by the written form instead would compare the closing
+/// quotation mark and the escaping backslashes with the characters of other keys.
+fn sort_key(written: &[u8]) -> Vec<u8> {
+    let inner = written
+        .strip_prefix(b"\"")
+        .and_then(|k| k.strip_suffix(b"\""))
+        .unwrap_or(written);
+    let mut key = Vec::with_capacity(inner.len());
+    let mut bytes = inner.iter();
+    while let Some(&byte) = bytes.next() {
+        if byte == b'\\' {
+            key.extend(bytes.next());
+        } else {
+            key.push(byte);
+        }
+    }
+    key
 }
 
 /// Wraps `serde_json::CompactFormatter` to use the appropriate writer (see
@@ -238,7 +261,7 @@ impl Formatter for CanonicalFormatter {
         let mut writer = self.writer(writer);
         let mut first = true;
 
-        for (key, value) in object.obj {
+        for (key, value) in object.obj.into_values() {
             CompactFormatter.begin_object_key(&mut writer, first)?;
             writer.write_all(&key)?;
             CompactFormatter.end_object_key(&mut writer)?;
@@ -273,7 +296,7 @@ impl Formatter for CanonicalFormatter {
         let object = self.obj_mut()?;
         let key = std::mem::take(&mut object.next_key);
         let value = std::mem::take(&mut object.next_value);
-        object.obj.insert(key, value);
+        object.obj.insert(sort_key(&key), (key, value));
         Ok(())
     }
 
